@@ -153,6 +153,8 @@ def prepare(tier, seed, workdir, vh):
     recs = [(42, 1)] if tier == "quick" else [(42, 1), (42, 2), (42, 3), (42, 4)]
     if tier == "thorough" and "WC_POINTS" not in os.environ:
         want = 400
+    if os.environ.get("WC_RECS"):
+        recs = [(42, int(x)) for x in os.environ["WC_RECS"].split(",")]
     wc.prepare(ID, _RUN, tier, seed, workdir, vh, recordings_spec=recs, want=want, judge=judge, points_fn=_points, extra_fn=_extra, describe_fn=describe)
 
 
